@@ -169,6 +169,11 @@ class _ErrorSpy:
         common.Error.__init__ = self._orig  # type: ignore
 
 
+def _nesting(errors: List[Any]) -> List[Tuple[int, int]]:
+    index = {id(e): i for i, e in enumerate(errors)}
+    return [(i, index[id(u)]) for i, e in enumerate(errors) for u in (e.underlying or []) if id(u) in index]
+
+
 def run_cli(
     model: pathlib.Path, target: str, snippets: pathlib.Path, out: pathlib.Path, scratch: pathlib.Path, spy: bool = False
 ) -> Dict[str, Any]:
@@ -192,7 +197,9 @@ def run_cli(
     finally:
         tempfile.tempdir = saved
     return {"rc": rc, "stdout": stdout.getvalue(), "stderr": stderr.getvalue(), "exc": exc, "sites": stderr.sites, "out": str(out),
-            "errors_created": [(site, e.message) for site, e in error_spy.created]}
+            "errors_created": [(site, e.message) for site, e in error_spy.created],
+            # index pairs (outer, inner): error `inner` was handed over as an underlying error of `outer`
+            "errors_nesting": _nesting([e for _, e in error_spy.created])}
 
 
 def judge(res: Dict[str, Any]) -> List[Tuple[str, str]]:
@@ -582,11 +589,13 @@ def dropped_errors(res: Dict[str, Any], target: str) -> List[Tuple[str, str]]:
         return []
     report = _norm(res["stderr"])
     own = {"csharp": ("csharp/", "smoke/"), "xsd": ("xsd/", "infer_for_schema/"), "jsonschema": ("jsonschema/", "infer_for_schema/")}.get(target, (target + "/",))
-    out = []
-    for site, message in res["errors_created"]:
-        if site.startswith(own) and (res["rc"] == 0 or _norm(message) not in report):
-            out.append((site, message))
-    return out
+    missing = [
+        i for i, (site, message) in enumerate(res["errors_created"])
+        if site.startswith(own) and (res["rc"] == 0 or _norm(message) not in report)
+    ]
+    # an error which went missing together with the error wrapping it is not a root cause of its own
+    inner = {i for o, i in res.get("errors_nesting", []) if o in missing}
+    return [res["errors_created"][i] for i in missing if i not in inner]
 
 
 def generator_error_stream(
